@@ -623,6 +623,70 @@ func genC01Index(r *kernel.RNG, tier string, i int) interface{} {
 	return sc
 }
 
+var infixTokens = []string{"a", "b", "x1", "1", "2", "-3", "4.5", "1e3", `"s"`, "'c'", "+", "-", "*", "/", "**", "=", ":=", "==", "!=", "<", "<=", ">", ">=", "&&", "||", "!", "+=", "-=", "++", "--",
+	"(", ")", "[", "]", "{", "}", ",", ";", ":", ".", "if", "else", "for", "range", "break", "continue", "return", "(f 1)", "a[0]", "a[1:2]", "a.b", "h.k", "lbl:", "nil", "true", "not", "and", "or", "mod", "->", "%a", "^(b)", "~c", "\n"}
+
+// genC01InfixSoup: token soups inside an infix block - the Pratt parser's look-ahead and binding-power loops are hand-written
+func genC01InfixSoup(r *kernel.RNG, tier string, i int) interface{} {
+	sc := &c01Scenario{Kind: "calls", Budget: 50000}
+	sc.Texts = append(sc.Texts, "(def a [1 2 3]) (def b 2) (def x1 3) (def h (hash k: 1)) (defn f [q] q)")
+	for j := 0; j < 24; j++ {
+		n := r.Range(1, 9)
+		var toks []string
+		for k := 0; k < n; k++ {
+			toks = append(toks, r.Pick(infixTokens))
+		}
+		sep := " "
+		if r.Chance(0.3) {
+			sep = ""
+		}
+		body := strings.Join(toks, sep)
+		switch r.Intn(4) {
+		case 0:
+			sc.Texts = append(sc.Texts, "{ "+body+" }")
+		case 1:
+			sc.Texts = append(sc.Texts, "(infixExpand { "+body+" })")
+		case 2:
+			sc.Texts = append(sc.Texts, "{"+body+"}")
+		case 3:
+			sc.Texts = append(sc.Texts, "(def q { "+body+" })")
+		}
+	}
+	return sc
+}
+
+var litSoupAtoms = []string{"0x", "0xG", "0o9", "0b2", "1e", "1e+", "1e-", "1.2.3", ".5.5", "1__0", "_1", "1_", "9999999999999999999999", "-9999999999999999999999", "1ULL", "1ULLL", "0xULL", "18446744073709551616ULL",
+	"'ab'", "''", "'\\q'", "'\\'", "\"\\q\"", "\"unterminated", "`unterminated", "a..b", ".a.", "..", "a.", ".1", "a:b:", "a::", ":a", "::", "#", "##", "?", "#a#", "a#", "~@", "~", "^", "%", "%%", "@", "\\", "a\\b",
+	"1/2", "1//2", "/*", "*/", "//", "+-", "-+", "--1", "++1", "1++", "=>", "<-", "<!", "!<", "&&&", "|", "||", "&", "$", "$$", "a$b", "é", "日本", "\t", "\x00", "1e999", "-1e999", "NaN", "Inf", "-Inf", "+Inf", "inf", "1i", "1.5i",
+	"true:", "nil:", "1:", ":=:", "a:=", "=:", "a-b", "a-1", "-a", "1-1", "1-", "(-)", "(- )", "[,]", "[,,1]", "{,}", "(,)", "{;}", "{;;a}", "(;)", "%[", "%(", "^[~@]", "(~@)", "~@x", "^~x", "^^x", "%~x"}
+
+// genC01LiteralSoup: malformed and borderline literals and operator fragments, alone and inside brackets
+func genC01LiteralSoup(r *kernel.RNG, tier string, i int) interface{} {
+	sc := &c01Scenario{Kind: "calls", Budget: 20000}
+	for j := 0; j < 30; j++ {
+		a, b := r.Pick(litSoupAtoms), r.Pick(litSoupAtoms)
+		switch r.Intn(8) {
+		case 0:
+			sc.Texts = append(sc.Texts, a)
+		case 1:
+			sc.Texts = append(sc.Texts, "("+a+")")
+		case 2:
+			sc.Texts = append(sc.Texts, "["+a+" "+b+"]")
+		case 3:
+			sc.Texts = append(sc.Texts, "{"+a+"}")
+		case 4:
+			sc.Texts = append(sc.Texts, "(str (quote "+a+"))")
+		case 5:
+			sc.Texts = append(sc.Texts, a+b)
+		case 6:
+			sc.Texts = append(sc.Texts, "(def z "+a+") z")
+		case 7:
+			sc.Texts = append(sc.Texts, "(hash "+a+" "+b+")")
+		}
+	}
+	return sc
+}
+
 func genC01Cli(r *kernel.RNG, tier string, i int) interface{} {
 	sc := &c01Scenario{Kind: "cli", Entry: []string{"replmain-c", "replmain-file", "replmain-stdin"}[i%3], Sandbox: r.Chance(0.4), Budget: 200000}
 	base := c01BaseText(r)
@@ -726,8 +790,10 @@ func init() {
 		Parts: []*kernel.Part{
 			{Name: "damaged-text", Count: cnt(6000, 200000), Generate: genC01Text, Execute: execC01, Shrink: shrinkC01},
 			{Name: "ill-typed-calls", Count: cnt(1200, 30000), Generate: genC01Calls, Execute: execC01, Shrink: shrinkC01},
+			{Name: "infix-soup", Count: cnt(500, 15000), Generate: genC01InfixSoup, Execute: execC01, Shrink: shrinkC01},
+			{Name: "literal-soup", Count: cnt(400, 12000), Generate: genC01LiteralSoup, Execute: execC01, Shrink: shrinkC01},
 			{Name: "indexing", Count: cnt(500, 15000), Generate: genC01Index, Execute: execC01, Shrink: shrinkC01},
-			{Name: "cli", Count: cnt(600, 12000), Generate: genC01Cli, Execute: execC01, Shrink: shrinkC01, Isolated: true},
+			{Name: "cli", Count: cnt(300, 12000), Generate: genC01Cli, Execute: execC01, Shrink: shrinkC01, Isolated: true},
 			vmPart,
 		},
 	})
